@@ -8,7 +8,8 @@ N = {"quick": 60, "thorough": 600}
 CORRESPONDENCES = ["Model::try_from accepts / rejects exactly when Conv.convert does (on the names and references of the parsed project)",
                    "ids and references of the converted model = Conv.convert's (ids read back as the names they derive from)",
                    "values of the converted spaces (level, height, envelope flag, multiplier, type, ventilation, illuminance), thermal bridges "
-                   "(kind by name, length, psi) and windows (offset, size, set-back) = ConvValues on the typed elements of BdlData.dataNew(text)"]
+                   "(kind by name, length, psi), windows (offset, size, set-back), loads (gains per area), layer and window constructions, glazing and frames "
+                   "= ConvValues on the typed elements of BdlData.dataNew(text)"]
 SPEC_FAMILIES = ()
 RULE = ("the BDL section of the 12 shipped .ctehexml files and the 56 legacy .cte files (catalogue merged in, as the tools do), generated projects "
         "(1..3 storeys x 1..3 spaces, rectangular / L / pentagonal outlines, interior walls with NEXT-TO, roofs by TOP or own polygon, ground "
@@ -157,6 +158,26 @@ def compare_values(case, out):
             for f in ("kind", "inside_tenv"):
                 if f in y and x.get(f) != y.get(f):
                     res.append((fam, f"{case['label']}: {coll} {x['name']}: {f} implementation {x.get(f)}, model {y.get(f)}"))
+    # collections the conversion filters to what is in use: every converted item has the model's values under its name
+    for coll, fields in (("loads", (("area_per_person", False), ("people_sensible", True), ("people_latent", True), ("equipment", False), ("lighting", False))),
+                         ("wallcons", (("absorptance", False),)),
+                         ("wincons", (("f_f", False), ("delta_u", False), ("g_glshwi", False), ("c_100", False))),
+                         ("glasses", (("u_value", False), ("g_gln", False))),
+                         ("frames", (("u_value", False), ("absorptivity", False)))):
+        mb = {y["name"]: y for y in out.get(coll, [])}
+        for x in iv.get(coll, []):
+            y = mb.get(x["name"])
+            if y is None or y.get("rejected"):
+                res.append((fam, f"{case['label']}: {coll} {x['name']!r} is in the converted model, the typed model {'rejects it' if y else 'does not have it'}"))
+                continue
+            _stats["values_compared_" + coll] += 1
+            for f, rounded in fields:
+                if not _veq(x.get(f), y.get(f), rounded):
+                    res.append((fam, f"{case['label']}: {coll} {x['name']}: {f} implementation {x.get(f)}, model {y.get(f)}"))
+            if coll == "wallcons":
+                a, b = x["thickness"], y["thickness"]
+                if len(a) != len(b) or any(not _veq(p, q) for p, q in zip(a, b)):
+                    res.append((fam, f"{case['label']}: wallcons {x['name']}: layer thicknesses implementation {a}, model {b}"))
     return res[:4]
 
 
